@@ -13,8 +13,14 @@ RULE = ("histories of next/take/peek/skip/limit/copy/append/map/filter/thub/Stre
         "object with only __iter__, array, dict keys, map / chain objects, itertools.repeat(x, k), audiolazy repeat(x, k); "
         "periodic: Stream(a, b, ..), itertools.cycle, itertools.repeat(x)); counts from None, ints, bools, floats (x.4, "
         "x.5, halves, negative), inf, -inf, nan; list / tuple / deque constructors, positional and keyword call styles; "
-        "map/filter functions from {+c, *c, even, >c}. Families: alias (every source kind x take/peek x constructor x "
-        "mutation of the result x follow-ups with copies), hubappend, all pairs of operations on small pools (quick: a "
+        "map/filter functions from {+c, *c, even, >c}. Multi-argument Stream(a, b, ..) / s.append(a, b, ..) with existing "
+        "Streams and hubs and fresh iterables among the arguments (every argument gives up its iterator at construction: "
+        "each hub is charged exactly one use then). REFUSED calls (mixed iterable / non-iterable arguments with a hub, a "
+        "Stream or its iterator among them, Stream(), append(), take/peek with a non-callable constructor or a str count, "
+        "limit(str), tee(x, -1)) must raise the stated exception and change nothing. Families: reuse (one stream: "
+        "in-place methods before and after it ran into its end), refused (hub with n uses, "
+        "refused and multi-argument calls interleaved with uses, then all uses requested), alias (every source kind x take/peek x constructor x "
+        "mutation of the result x follow-ups with copies), hubappend (single- and multi-argument), all pairs of operations on small pools (quick: a "
         "seeded 25 %; thorough: all, plus all triples over 6 counts), seeded samples of length 3-4, random histories of "
         "length 5-25 over 1-3 random sources; after the history the caller's own containers must be unchanged. "
         "Exclusions (stated, enforced by the generator): a history is cut before an operation that does not terminate "
@@ -422,7 +428,7 @@ def gen_hubappend(tier):
   mid = [["appendobj", 0, 2], ["use", 2], ["take", 0, ["int", 1]], ["take", 0, ["int", 2]],
          ["peek", 2, ["int", 2]], ["copy", 2], ["peek", 0, ["int", 3]],
          ["multi", 0, [["fresh", [9]], ["obj", 2]]], ["multi", -1, [["obj", 2], ["fresh", [9]], ["obj", 2]]]]
-  maxlen = 3 if tier == "quick" else 4
+  maxlen = 2 if tier == "quick" else 3
   for own in ([0], []):
     for tail in (["fin", [1, 2, 3]], ["cyc", [4, 5]]):
       for n in (0, 1, 2):
@@ -542,7 +548,27 @@ def gen_refused(tier, rng):
           yield finish([["fin", [0, 5]], tail], ops, ["refused", "n=%d" % n])
 
 
+def gen_reuse(tier, rng):
+  """one stream object used again and again: the same in-place method applied before and after the stream ran
+  into its end (append - exhaust - append - observe and the like): nothing may survive from the earlier calls"""
+  mid = [["append", 0, ["fin", [7, 8]]], ["append", 0, ["fin", []]], ["multi", 0, [["fresh", [3]], ["fresh", [4]]]],
+         ["take", 0, ["inf"]], ["take", 0, ["int", 5]], ["take", 0, ["int", 2]], ["peek", 0, ["int", 5]],
+         ["skip", 0, ["int", 9]], ["limit", 0, ["int", 3]], ["map", 0, ["add", 10]], ["filter", 0, ["gt", 1]]]
+  rot = _Rot()
+  for p in (["fin", [1, 2]], ["fin", []]):
+    for ln in (3, 4):
+      for seq in itertools.product(mid, repeat=ln):
+        if sum(1 for op in seq if op[0] in ("append", "multi")) < 2:
+          continue
+        if rng.random() > (0.12 if tier == "quick" else 0.6):
+          continue
+        yield finish([kinded(p, rot)], decorate([list(op) for op in seq], rot) + [["take", 0, ["int", 9]]],
+                     ["reuse", "len=%d" % ln])
+
+
 def gen_hist(tier, rng):
+  for c in gen_reuse(tier, rng):
+    yield c
   for c in gen_refused(tier, rng):
     yield c
   for c in gen_alias(tier, rng):
